@@ -179,7 +179,9 @@ class Gen:
         for _ in range(n):
             r = rng.random()
             if with_prov and r < 0.3:
-                nm = ["Q", "prov", PROV, rng.choice(["type", "label", "role", "location", "value"])]
+                # mostly the PROV-DM extra attributes; sometimes another name of the prov namespace
+                nm = ["Q", "prov", PROV, rng.choice(["type", "label", "role", "location", "value"] * 3
+                                                   + ["generatedAtTime", "atTime", "typeOf", "labelled"])]
                 if rng.random() < 0.3:
                     nm = ["S", "prov:" + nm[3]]
             else:
